@@ -516,6 +516,10 @@ var plaintexts = func() []plaintext {
 		mkPlain("dsc-then-readstring", "/R {currentfile 7 string readstring pop} def\n%%BeginData: x\nR abcdefg /after 1 def ", "mark currentfile closefile\n", "mark", true),
 		mkPlain("dsc-inside", "/z 0 def\n%%Inside: yes\n%%+ more\n/a 1 def\n/b 2 def\n%%Second: s\n", "mark currentfile closefile\n", "mark", true),
 		mkPlain("lf-then-dsc", "\n%%Inside: first line\n/a 1 def\r\n%%Second: after CR LF\n/b 2 def ", "mark currentfile closefile\n", "mark", true),
+		// the encrypted part runs at the execution level of the eexec operator: a
+		// recursion that just fits as clear text fits inside the section as well
+		mkPlain("recursion-98-deep", "/r { dup 0 ne { 1 sub r } if } def 98 r ", "mark currentfile closefile\n", "mark", true),
+		mkPlain("recursion-99-deep", "/r { dup 0 ne { 1 sub r } if } def 99 r ", "mark currentfile closefile\n", "mark", true),
 		mkPlain("long", longDefs(), "mark currentfile closefile\n", "mark", true),
 	}
 	ps[2].long = true
